@@ -306,6 +306,10 @@ func checkC06(c *Ctx) {
 	// ---- C06.3
 	checkCovertWriters(c, "C06.3")
 
+	// ---- C06.9 "for every station configuration": after a reload the lists in force are the new configuration's
+	r.Rule("C06.9", "a reload takes over every parsed policy list of the new configuration, unconditionally", 2)
+	checkReloadTakeover(c, "C06.9")
+
 	// ---- C06.4 dial sites
 	// ---- C06.5 the decision is a function of the input and the current policy only
 	r.Rule("C06.5", "the covert guard and everything it calls keep no state of their own: no store to a field, map, global or channel", 1)
